@@ -203,6 +203,17 @@ def bounded_unknown_names(tier, seed):
                                     b.violation("absent-name", f"rule mentioning absent module {bad!r} ({side}) gave verdict {kind} {msg!r}",
                                                 dict(kind="absent", tree=tree, level_limit=limit, imports=[list(p) for p in imports], S=S, O=O, verb=verb, import_=imp, except_=exc))
                         kind, msg = outcome(make_rule([(kindf, bad)], "should_not", True, False, None, anything=True), arch)
+                        if kindf == "name":
+                            # a batch of partial names in which ONE matches no module: no verdict either (the matching one must not hide the dead one)
+                            for side in ("subject", "object"):
+                                dead = [("partial", "*" + good.rsplit(".", 1)[1]), ("partial", "*" + bad.replace(".", "") + "zz*")]
+                                verb, imp, exc = SHAPES[(len(bad) + len(good)) % len(SHAPES)]
+                                S2, O2 = (dead, [("name", good)]) if side == "subject" else ([("name", good)], dead)
+                                k2, m2 = outcome(make_rule(S2, verb, imp, exc, O2), arch)
+                                b.case()
+                                if k2 != "error":
+                                    b.violation("absent-name", f"batch of partial names {[x for _, x in dead]} ({side}; the second matches nothing) gave verdict {k2} {m2!r}",
+                                                dict(kind="absent", tree=tree, level_limit=limit, imports=[list(p) for p in imports], S=S2, O=O2, verb=verb, import_=imp, except_=exc))
                         b.case()
                         if kind != "error":
                             b.violation("absent-name", f"'anything' rule on absent module {bad!r} gave verdict {kind}", dict(kind="absent-anything", tree=tree, level_limit=limit, imports=[list(p) for p in imports], S=[(kindf, bad)]))
@@ -312,7 +323,7 @@ def _c16_chunk(seqs):
     return out
 
 
-LAYER_RULE_VOCAB = ["based_on", "layers_that", "are_named:L1", "are_named:L2", "are_named:[L1]", "are_named:[L1,L2]", "should", "should_not",
+LAYER_RULE_VOCAB = ["based_on", "layers_that", "are_named:L1", "are_named:L2", "are_named:[L1]", "are_named:[L1,L2]", "should", "should_not", "should_only",
                     "access_layers_that", "be_accessed_by_layers_that", "access_layers_except_layers_that", "access_any_layer", "assert_applies"]
 
 
